@@ -71,7 +71,7 @@ Definition pow256 (n : nat) : N := 256 ^ N.of_nat n.
 (* ---------- integers ---------- *)
 Definition in_range_u (n : nat) (z : Z) : bool := ((0 <=? z) && (z <? Z.of_N (pow256 n)))%Z.
 Definition in_range_i (n : nat) (z : Z) : bool :=
-  ((- Z.of_N (pow256 n / 2) <=? z) && (z <? Z.of_N (pow256 n / 2)))%Z.
+  ((- Z.of_N (pow256 n) <=? 2 * z) && (2 * z <? Z.of_N (pow256 n)))%Z.
 
 Definition enc_u (n : nat) (z : Z) : bytes := n2be n (Z.to_N z).
 Definition enc_i (n : nat) (z : Z) : bytes := n2be n (Z.to_N (z mod Z.of_N (pow256 n))%Z).
@@ -79,7 +79,7 @@ Definition enc_i (n : nat) (z : Z) : bytes := n2be n (Z.to_N (z mod Z.of_N (pow2
 Definition u_of_bytes (b : bytes) : Z := Z.of_N (be2n b).
 Definition i_of_bytes (n : nat) (b : bytes) : Z :=
   let u := be2n b in
-  if u <? pow256 n / 2 then Z.of_N u else (Z.of_N u - Z.of_N (pow256 n))%Z.
+  if 2 * u <? pow256 n then Z.of_N u else (Z.of_N u - Z.of_N (pow256 n))%Z.
 
 Definition dec_u (n : nat) (bs : bytes) : dres :=
   '(b, r) <- read_bytes n bs ;; Some (VInt (u_of_bytes b), r).
